@@ -353,7 +353,8 @@ func init() {
 		Rule: "one run = one fault-free execution of a generated history on the simulated disk recording the physical write log; then for EVERY multi-write step (commit, deletion of old versions, rollback, import commit, open that builds or rebuilds the fast index) and EVERY boundary strictly between two of its physical writes one evaluation: a fresh tree is opened on the disk image at that boundary (seeded fast/cache configuration) and the whole observable state (version APIs, every read of every retained version through tree walk, fast path and iteration, hashes) must equal the model before or the model after the step; if old, the operation is repeated and must reach the crash-free result; then one more write+commit must be canonical; evaluations = cuts; distinct non-trivial = plans with >=1 cut",
 		Gen: func(seed uint64, run int, tier string) *drv.Plan {
 			p := genPlan("C05", seed, run, c05Bias(tier))
-			if tier == "thorough" && run%500 == 77 {
+			// one import of ~21 000 nodes per quick batch (a few per thorough run)
+			if (tier == "thorough" && run%500 == 77) || (tier != "thorough" && run%1500 == 77) {
 				p.Mode = "big-import"
 				p.Steps = nil
 			}
